@@ -5,7 +5,7 @@ from .c01 import features
 PROF = projgen.profile(p_dep=0.7, p_soft=0.45, p_ifthen=0.25, p_provides=0.5, p_unique=0.35, p_conflicts=0.45,
                        p_ctx_select=0.3, p_ctx_disable=0.35, p_cli_select=0.45, p_cli_disable=0.45,
                        p_tasks=0.15, p_custom_build=0.03, p_download=0.03, p_varopts=0.05, p_hard_missing=0.0)
-OBS = ("status", "decision", "modules")
+OBS = ("status", "decision", "modules", "loaded")
 
 
 def yaml_unique(p):
